@@ -829,3 +829,183 @@ def r19_12_stride_pairs_with_its_buffer(ck, P):
                 ck.ok(R, where)
     if n == 0:
         ck.incomplete(R, 'no stride * y product found in the blt functions')
+
+
+def _bases(f, o, seen=None):
+    """outermost bases (loads kept) a pointer may derive from, through phi and select"""
+    seen = set() if seen is None else seen
+    b = f.path(o)[0]
+    if b[0] in ('phi', 'select'):
+        if b[1] in seen:
+            return set()
+        seen.add(b[1])
+        x = f.by_id[b[1]]
+        out = set()
+        for a in (x.a if x.op == 'phi' else x.a[1:]):
+            out |= _bases(f, a, seen)
+        return out
+    return {b}
+
+
+def _through_field(base, field):
+    """does the (nested) access path behind a root go through a load of `field`?"""
+    while base and base[0] == 'load':
+        b, fl = base[1]
+        if fl and fl[-1] == field:
+            return True
+        base = b
+    return False
+
+
+def r19_13_shortcut_needs_plain_destination(ck, P, rid='C19-R13'):
+    """T-GRD: an exported drawing entry point that has the general route (it composites into its destination parameter) and, on another
+    branch, a shortcut that writes the destination's storage without compositing, takes the shortcut only for a destination whose pixels
+    are all in that storage: no alpha map; and, where the shortcut is handed the raw bits pointer, no read/write accessors either."""
+    R = ck.rule(rid, 'in every exported function that composites into an image parameter D (pixman_image_composite32 / pixman_image_composite) and on another branch writes D directly (hands D->bits.bits to pixman_fill / pixman_blt, or D to a function that stores into image storage without compositing), the direct branch is guarded by D->common.alpha_map == NULL, and a raw-pointer shortcut also by D->bits.read_func == NULL and D->bits.write_func == NULL: an alpha map holds the destination\'s alpha channel and accessors are the only way its pixels may be touched', floor=2)
+    GEN = ('pixman_image_composite32', 'pixman_image_composite')
+    RAW = ('pixman_fill', 'pixman_blt', '_pixman_implementation_fill', '_pixman_implementation_blt')
+    # W: functions that store into an image's pixel storage themselves
+    direct = set()
+    for g in P.functions():
+        for x in g.insts():
+            if x.op == 'store':
+                if any(_through_field(r, 'bits_image.bits') for r in _bases(g, x.a[1])):
+                    direct.add(g); break
+            elif x.op == 'call' and x.callee is None and 'callee' in x.d:
+                if g.last_field(g.path(x.d['callee'])) == 'bits_image.write_func':
+                    direct.add(g); break
+    cg = P.callgraph()
+    memo = {}
+    def writes_directly(g):
+        if g in memo:
+            return memo[g]
+        seen = set(); work = [g]; hit = False; general = False
+        while work:
+            h = work.pop()
+            if h in seen:
+                continue
+            seen.add(h)
+            if h.name in GEN:
+                general = True; continue
+            if h in direct:
+                hit = True
+            work.extend(cg.get(h, ()))
+        memo[g] = hit and not general
+        return memo[g]
+    def null_facts(f, blockid, root):
+        out = set()
+        for t, s in f.guard_edges(blockid):
+            if not t.a:
+                continue
+            x, p, ops = f.cond(t.a[0])
+            if x is None:
+                continue
+            taken = t.d['succ'][0] == s
+            if x.op == 'icmp' and p in ('eq', 'ne'):
+                isnull = [o for o in ops if o[0] == 'n' or (o[0] == 'c' and int(o[1]) == 0)]
+                other = [o for o in ops if o not in isnull]
+                if not isnull or len(other) != 1 or (p == 'eq') != taken:
+                    continue
+                o = other[0]
+            elif p in ('is', 'not') and (p == 'not') == taken:
+                o = ops[0]
+            else:
+                continue
+            y = f.v(o)
+            while y is not None and y.op in ('ptrtoint', 'bitcast', 'zext', 'sext'):
+                y = f.v(y.a[0])
+            if y is not None and y.op == 'load' and f.root(f.path(y.a[0])) == root:
+                out.add(f.last_field(f.path(y.a[0])))
+        return out
+    n = 0
+    for f in P.functions():
+        if not f.exported:
+            continue
+        dests = set()
+        for c in f.calls():
+            if c.callee in GEN:
+                g = P.resolve(f, c.callee)
+                for k, a in enumerate(c.a):
+                    nm = g.params[k][0] if g and k < len(g.params) else ''
+                    if nm and nm.startswith(('dest', 'dst')) and a[0] in ('a', 'v'):
+                        dests.add(f.root(f.path(a)))
+        dests = {r for r in dests if r[0] == 'arg'}
+        if not dests:
+            continue
+        for c in f.calls():
+            if c.callee in GEN or not c.callee:
+                continue
+            g = P.resolve(f, c.callee)
+            if g is None:
+                continue
+            for a in c.a:
+                if not a or a[0] not in ('a', 'v'):
+                    continue
+                pth = f.path(a); root = f.root(pth)
+                if root not in dests:
+                    continue
+                y = f.v(a)
+                raw = c.callee in RAW and y is not None and y.op == 'load' and f.last_field(f.path(y.a[0])) == 'bits_image.bits'
+                whole = (a[0] == 'a' or not pth[1]) and writes_directly(g)
+                if not raw and not whole:
+                    continue
+                n += 1; ck.saw(f)
+                need = {'image_common.alpha_map'} | ({'bits_image.read_func', 'bits_image.write_func'} if raw else set())
+                have = null_facts(f, c.bb.id, root)
+                where = '%s: %s at %s' % (f.name, c.callee, c.loc())
+                miss = sorted(need - have)
+                if miss:
+                    ck.violation(R, f.name, 'direct write through %s' % c.callee, '%s has the general route (it composites into %s) but on this branch hands %s to %s, which writes the image\'s own storage, without having established that %s is NULL: %s' % (f.name, f.params[root[1]][0], 'the raw bits pointer' if raw else 'the image', c.callee, ' / '.join(miss), 'an image with an alpha map keeps its alpha channel in the map, so the two routes give different pictures' if miss == ['image_common.alpha_map'] else 'an image with accessors may be touched only through them, and one with an alpha map keeps its alpha channel in the map'), c.loc())
+                else:
+                    ck.ok(R, where, 'guarded by NULL tests of %s' % ', '.join(sorted(need)))
+                break
+    if n == 0:
+        raise AnalysisBroken('%s: no exported function with both a compositing route and a direct-write shortcut found' % rid)
+
+
+def r_same_storage_needs_same_stride(ck, P, rid='C02-R22'):
+    """belief rule: code that acts on 'these two images are the same pixels' (their bits pointers compare equal) relies on every row
+    coinciding, not only the first: the row strides are compared on the same path."""
+    R = ck.rule(rid, 'wherever the library compares the bits pointers of two different images for equality and acts on the outcome (pixbuf detection: colour and alpha of one buffer), every block that runs only when they are equal also runs only when the two rowstrides are equal: two images over one buffer with different strides share their first row only', floor=1)
+    n = 0; reported = set()
+    def two_image_loads(f, x, field):
+        if x is None or x.op != 'icmp' or x.d['p'] not in ('eq', 'ne'):
+            return None
+        ys = [f.v(a) for a in x.a]
+        if any(y is None or y.op != 'load' or f.last_field(f.path(y.a[0])) != field for y in ys):
+            return None
+        rs = [f.root(f.path(y.a[0])) for y in ys]
+        return frozenset(rs) if rs[0] != rs[1] else None
+    for f in P.functions():
+        tests = {}
+        for b in f.blocks:
+            t = b.term
+            if t.op != 'br' or not t.a:
+                continue
+            x, p, ops = f.cond(t.a[0])
+            for fld in ('bits_image.bits', 'bits_image.rowstride'):
+                pr = two_image_loads(f, x, fld)
+                if pr and p in ('eq', 'ne'):
+                    tests[t.i] = (fld, pr, t.d['succ'][0] if p == 'eq' else t.d['succ'][1], x)
+        ptr_tests = {k: v for k, v in tests.items() if v[0] == 'bits_image.bits'}
+        if not ptr_tests:
+            continue
+        for b in f.blocks:
+            ge = f.guard_edges(b.id)
+            for t, s in ge:
+                if t.i not in ptr_tests or ptr_tests[t.i][2] != s:
+                    continue
+                acts = b.term.op != 'br' or not b.term.a or any(q.op in ('store', 'call') for q in b.insts)
+                if not acts:
+                    continue
+                pr = ptr_tests[t.i][1]; x = ptr_tests[t.i][3]
+                n += 1; ck.saw(f)
+                ok = any(t2.i in tests and tests[t2.i][0] == 'bits_image.rowstride' and tests[t2.i][1] == pr and tests[t2.i][2] == s2 for t2, s2 in ge)
+                where = '%s: block at %s under the pointer test at %s' % (f.name, b.term.loc(), x.loc())
+                if ok:
+                    ck.ok(R, where)
+                elif (f.name, t.i) not in reported:
+                    reported.add((f.name, t.i))
+                    ck.violation(R, f.name, 'same-buffer test at %s' % x.loc(), '%s treats two images as the same pixels because their bits pointers are equal (%s) and acts on it at %s, but no test on that path establishes that their rowstrides are equal: with different strides only the first row coincides, and the code that takes both colour and alpha from one image reads the alpha of the wrong pixels for every other row' % (f.name, x.loc(), b.term.loc()), x.loc())
+    if n == 0:
+        raise AnalysisBroken('%s: no comparison of two images\' bits pointers found (pixbuf detection)' % rid)
